@@ -224,3 +224,37 @@ class PoolRun:
     def delete(self, name: str):
         self.trainer.del_cell(name)
         return [{"a": "del", "cell": name}]
+
+
+def unit_description(trainer, name: str) -> str:
+    """What cell `name` is trained with: the auxiliary state (every public field, callables by qualified name, tensor
+    keyword arguments held in sub-modules) and every monitor's tags and configuration."""
+    unit = trainer.get_unit(name)
+    st = unit.state
+    fields = {}
+    if st is not None:
+        for k, v in vars(st).items():
+            if k.startswith("_") or k == "training":
+                continue
+            fields[k] = v
+        for k, b in st.named_buffers():
+            fields["buf:" + k] = b
+        for k, q in st.named_parameters():
+            fields["par:" + k] = q
+    mons = {m: [tags_of(mon), config_of(mon)] for m, mon in trainer.monitor_pool_.named_monitors_of(name)}
+    return json.dumps(_canon({"state": fields, "monitors": mons}), sort_keys=True)
+
+
+def override_equivalence(cls, base: dict, k: str, alt, cell: str):
+    """-> (description via constructor, description via register_cell override) of `cell` trained with base | {k: alt}"""
+    sa, sb = Site(), Site()               # (kept alive: a cell refers to its layer weakly)
+    a = cls(**dict(base, **{k: alt}))
+    try:
+        a.register_cell(cell, sa.cell(cell))
+    except RuntimeError as ex:
+        if "does not contain required parameter" not in str(ex):
+            raise
+        return None
+    b = cls(**base)
+    b.register_cell(cell, sb.cell(cell), **{k: alt})
+    return unit_description(a, cell), unit_description(b, cell)
